@@ -257,9 +257,19 @@ class Discharger:
                 if pb is None:
                     break
                 ptr = get_tracer(self.facts, pb)
-                site = get_tracer(self.facts, cur)._closure_agg()
+                ctr = get_tracer(self.facts, cur)
+                site = ctr._closure_agg()
                 if site is not None:
                     gs = gs + self.inter.expand_guards(ptr.guards_at(site[0]))
+                # ... and a closure that a private helper of the same file invokes (`self.update_file(path, |file| ..)`) runs under what
+                # holds at the invocation inside the helper, read with the helper's parameters replaced by the caller's arguments
+                cbs = ctr.callback_site()
+                if cbs is not None:
+                    hb_, hbb_, _vals, acts_ = cbs
+                    htr_ = get_tracer(self.facts, hb_)
+                    for g_ in self.inter.expand_guards(htr_.guards_at(hbb_)):
+                        if len(g_) > 1 and isinstance(g_[1], tuple):
+                            gs = gs + [(g_[0], type(htr_).subst_args(g_[1], hb_.id, acts_)) + tuple(g_[2:])]
                 cur = pb
             self._guards[key] = [nguard(g) for g in gs]
         return self._guards[key]
